@@ -2,6 +2,7 @@ CONSTANTS
   RATE = 8
   WIDTH = 12
   Mutants = {{"wires_cap"}, {"plonk_zs_partial_products_cap"}, {"quotient_polys_cap"}, {"openings.constants"}, {"openings.plonk_sigmas"}, {"openings.wires"}, {"openings.plonk_zs"}, {"openings.partial_products"}, {"openings.quotient_polys"}, {"openings.lookup_zs"}, {"openings.plonk_zs_next"}, {"openings.lookup_zs_next"}, {"commit_cap.1"}, {"commit_cap.2"}, {"final_poly"}, {"pow_witness"}, {"public_inputs_hash"}, {"circuit_digest"}, {"fri.rate_bits"}, {"fri.cap_height"}, {"fri.proof_of_work_bits"}, {"fri.reduction_strategy"}, {"fri.num_query_rounds"}, {"fri.hiding"}, {"fri.degree_bits"}, {"fri.reduction_arity_bits"}}
+  EncodeMutant = "none"
   ConfigSet = "one"
 INIT Init
 NEXT Next
